@@ -1944,9 +1944,11 @@ class Interp:
                     add = listed_elems(vals[0])
                 s1 = s
                 if name == 'append':
+                    # (the vector the elements are moved out of is empty afterwards: followed for an owned local; what any other
+                    # source expression holds afterwards is not tracked here, and a rule that reads it again sees the unknown)
                     src = hirq.peel_refs(e['args'][0])
-                    if src['k'] == 'Path' and src.get('res') == 'local' and s.env.get(src['bind'], ('unk',))[0] in TRACKED_VEC:
-                        s1 = s.set(src['bind'], ('vec', ()))
+                    if src['k'] == 'Path' and src.get('res') == 'local' and src['bind'] in s.env:
+                        s1 = s.set(src['bind'], ('vec', ()) if s.env[src['bind']][0] in TRACKED_VEC else ('unk', 'vector after append()'))
                 done(('vec', tuple(old) + tuple(add)) if old is not None and add is not None else ('concat', c, vals[0]), UNIT, s1)
             elif own and name == 'pop' and not vals:
                 if c[0] == 'vec':
@@ -2029,10 +2031,12 @@ class Interp:
             # their original order (std: "This sort is stable (i.e., does not reorder equal elements)").  Modelled when f yields one
             # known key for every element and all keys are of one kind that std and this comparison order alike: bool (false < true),
             # integers, strings / octet strings (lexicographic by octet; UTF-8 keeps code point order)
+            # (how often f is called per element is not specified for sort_by_key: only a key function that does nothing but compute
+            # its answer - no call event, no store - is modelled)
             keys, s1 = [], s
             for x in xs:
                 ko = self.apply(vals[0], [x], e, s1)
-                if len(ko) != 1 or ko[0].kind != 'val' or ko[0].val[0] != 'lit':
+                if len(ko) != 1 or ko[0].kind != 'val' or ko[0].val[0] != 'lit' or ko[0].st.ev != s1.ev or ko[0].st.heap != s1.heap:
                     return False
                 k, s1 = ko[0].val[1], ko[0].st
                 keys.append(k.encode('utf-8') if isinstance(k, str) else k)
